@@ -304,7 +304,10 @@ impl SwapChain {
                 if !o.is_ok() || !*unsorted_dust {
                     return o;
                 }
-                apply(w, &PuOp::Provide { u: B, pool: "o.g".into(), funds: dn.into_iter().map(|d| (d, 1u128)).collect(), lock: None, lock_id: None, recv: None, liq_slip: Some(10_000), swap_slip: None })
+                // the dust deposit is accepted only where it leaves isqrt(D) unchanged; where it is refused the seed is the
+                // reverse-created pool without it
+                let _ = apply(w, &PuOp::Provide { u: B, pool: "o.g".into(), funds: dn.into_iter().map(|d| (d, 1u128)).collect(), lock: None, lock_id: None, recv: None, liq_slip: Some(10_000), swap_slip: None });
+                o
             }
             ScOp::Swap { i, j, amt } => {
                 let Some(p) = observe_pool(w, "o.g") else { return Outcome::Rejected("no pool".into()) };
